@@ -107,6 +107,28 @@ theorem compile_render (e : Env) (v : PyDT) : ∀ (n : Nat) (fmt : Str) (pw : Bo
           · trivial
           · exact i2 i hi
 
+/-- a white-space run of the format (`\\s+`) takes the whole run of the input first, when what
+follows is not white space -/
+theorem firstMatch_ws (e : Env) (sp : Str) (hne : sp ≠ []) (hsp : ∀ c ∈ sp, e.isSpace c = true)
+    (is : List FItem) (tail : Str) (f : TmF) (r : TmF × Str)
+    (htail : ∀ c r', tail = c :: r' → e.isSpace c = false)
+    (h : firstMatch e is tail f = some r) :
+    firstMatch e (.ws :: is) (sp ++ tail) f = some r := by
+  have htw : (sp ++ tail).takeWhile e.isSpace = sp := by
+    rw [List.takeWhile_append_of_pos hsp]
+    cases tail with
+    | nil => simp
+    | cons c r' => simp [List.takeWhile, htail c r' rfl]
+  have hlen : 0 < sp.length := List.length_pos_iff.mpr hne
+  obtain ⟨k, hk⟩ : ∃ k, sp.length = k + 1 := ⟨sp.length - 1, by omega⟩
+  unfold firstMatch matchItems
+  rw [htw, hk]
+  show (((k + 1) :: countDown k).flatMap _).head? = _
+  apply head_flatMap_cons
+  have h1 : (sp ++ tail).drop (k + 1) = tail := by rw [← hk]; simp
+  rw [h1]
+  exact h
+
 /-- the fields `strptime` collects along the first match -/
 def setAll (e : Env) (v : PyDT) : TmF → List FItem → TmF
   | f, [] => f
